@@ -2,12 +2,16 @@
     This file contains only the pinned statements; the specification ([Relations], [RelationsM],
     [present], [declares], [Required], [excused], [cond_required], ...) and the proofs live in
     ParseProofs/Relations.v. *)
-From Coq Require Import ZArith List Bool.
+From Coq Require Import ZArith List Bool Relations.Relation_Operators.
 Import ListNotations.
 From ClapModel Require Import Base.Bytes Base.Machine.
 From ClapModel Require Import Parse.Cmd Parse.Build Parse.Valid Parse.Matcher Parse.Errors Parse.Validator Parse.Parser.
-From ClapModel Require Import ParseProofs.Relations.
+From ClapModel Require Import ParseProofs.Relations ParseProofs.RelationsTree ParseProofs.RelationsClauses ParseProofs.RelationsComplete ParseProofs.RelationsFamilies ParseProofs.RelationsCoherent.
+From ClapModel Require Import ParseProofs.ValidateTotal.
 From ClapModel Require Import ParseProofs.Safe ParseProofs.Invariant ParseProofs.Totality ParseProofs.TotalityMain ParseProofs.IndexInv.
+From ClapModel Require Import ParseProofs.Globals.
+From RecordUpdate Require Import RecordSet.
+Import RecordSetNotations.
 Open Scope N_scope.
 
 (** (R4) presence is "the entry's source is not DefaultValue" -- what [check_explicit] tests *)
@@ -112,3 +116,402 @@ Theorem C03_level_sound_closed : forall fuel c toks st0 st,
   Relations c (mt st).
 Proof. exact level_relations. Qed.
 Print Assumptions C03_level_sound_closed.
+
+(** ---------------------------------------------------------------------------------------
+    EVERY LEVEL OF THE CHAIN (round 2; definitions and proofs in ParseProofs/RelationsTree.v).
+    [validated_chain c m]: read from the root downwards, the reported matches [m] are at every
+    level of the recorded subcommand chain a matcher that satisfies [Relations] against that
+    level's own definition (the child the parser builds when it descends); the chain ends at a
+    level without subcommand or at an external subcommand. *)
+
+(** the token loop never touches the recorded subcommand, and hands over an external subcommand
+    only where the definition allows one (every command, every state, every token list) *)
+Theorem C03_loop_keeps_sub : forall c s toks ls st,
+  mt_sub (mt st) = s ->
+  match parse_loop c toks ls st with
+  | ROk lr => mt_sub (mt (lr_st lr)) = s
+              /\ match lr with LExternal _ _ _ => is_set s_allow_external c = true | _ => True end
+  | RErr _ st' => mt_sub (mt st') = s
+  | RPanic _ => True
+  end.
+Proof. exact parse_loop_sub. Qed.
+Print Assumptions C03_loop_keeps_sub.
+
+(** any level of the recursion, any depth: a successful [get_matches_with] of a tree in which no
+    level ignores errors returns a validated chain *)
+Theorem C03_level_sound_tree : forall fuel c toks st0 st,
+  tree_ok fuel c -> strict_tree fuel c -> G c idx_inv trivV st0 -> mt_sub (mt st0) = None ->
+  get_matches_with fuel c toks st0 = ROk st ->
+  validated_chain c (into_inner (mt st)).
+Proof. exact gmw_chain. Qed.
+Print Assumptions C03_level_sound_tree.
+
+(** the class: [no_ignore] (no node sets [ignore_errors]) is inherited by every command the
+    parser builds on the way down *)
+Theorem C03_no_ignore_inherited : forall f x,
+  plain x = true -> no_ignore x = true -> strict_tree f (build_self x).
+Proof. exact strict_tree_of. Qed.
+Print Assumptions C03_no_ignore_inherited.
+
+(** the whole parse: for every valid [plain] definition in which no node ignores errors and every
+    token list, a successful parse reports (up to the copy of global values, which keeps the
+    chain of names) a chain that was validated at EVERY level *)
+Theorem C03_parse_sound_tree : forall c0 toks m,
+  plain c0 = true -> no_ignore c0 = true -> valid c0 = true ->
+  do_parse c0 toks = OOk m ->
+  exists st, run_level c0 toks = ROk st /\ m = reported c0 st
+             /\ validated_chain (build_self c0) (into_inner (mt st))
+             /\ Globals.chain m = Globals.chain (into_inner (mt st)).
+Proof. exact parse_sound_tree. Qed.
+Print Assumptions C03_parse_sound_tree.
+
+Theorem C03_parse_top_sound_tree : forall c0 argv m,
+  plain c0 = true -> no_ignore c0 = true ->
+  (forall b, valid (c0 <| c_bin_name := b |>) = true) -> valid c0 = true ->
+  parse_top c0 argv = OOk m ->
+  exists c1 toks st,
+    (c1 = c0 \/ exists b, c1 = c0 <| c_bin_name := Some b |>)
+    /\ run_level c1 toks = ROk st /\ m = reported c1 st
+    /\ validated_chain (build_self c1) (into_inner (mt st))
+    /\ Globals.chain m = Globals.chain (into_inner (mt st)).
+Proof. exact parse_top_sound_tree. Qed.
+Print Assumptions C03_parse_top_sound_tree.
+
+(** non-vacuity: a two-level definition with live relations at both levels; an argv that reaches
+    the child, one that ends in an external subcommand, one rejected at the child level *)
+Theorem C03_tree_nonvacuous :
+  plain t_cmd = true /\ no_ignore t_cmd = true /\ valid t_cmd = true
+  /\ (exists m, do_parse t_cmd t_toks = OOk m /\ Globals.chain m = [[115]])
+  /\ (exists m, do_parse t_cmd [dd [120;120]; [122]; [121]] = OOk m /\ Globals.chain m = [[122]])
+  /\ (exists e, do_parse t_cmd [dd [120;120]; [115]; dd [97;97]] = OErr e /\ e_kind e = EMissingRequiredArgument).
+Proof. exact parse_sound_tree_nonvacuous. Qed.
+Print Assumptions C03_tree_nonvacuous.
+
+(** ---------------------------------------------------------------------------------------
+    CLAUSE BY CLAUSE (round 2; ParseProofs/RelationsClauses.v): every sentence of the property
+    text as its own consequence of [Relations], for ALL relation graphs and all matchers.
+    Together with [C03_parse_sound_tree] each of them holds at every level of every successful
+    parse of the class. *)
+
+(** (R1) [conflicts_with]; [overrides_with] ("overrides are implicitly conflicts"); a conflict
+    declared by a group holds for its members; a group's conflict against a present arg; an arg
+    naming a group *)
+Theorem C03_clause_conflicts_with : forall c mt, Relations c mt -> forall i a y,
+  arg_of c i a -> In y (a_blacklist a) -> y <> i -> present mt i -> present mt y -> False.
+Proof. exact clause_conflicts_with. Qed.
+Print Assumptions C03_clause_conflicts_with.
+
+Theorem C03_clause_overrides_conflict : forall c mt, Relations c mt -> forall i a y,
+  arg_of c i a -> In y (a_overrides a) -> y <> i -> present mt i -> present mt y -> False.
+Proof. exact clause_overrides_conflict. Qed.
+Print Assumptions C03_clause_overrides_conflict.
+
+Theorem C03_clause_group_conflict_member : forall c mt, Relations c mt -> forall i a g y,
+  arg_of c i a -> member c i g -> In y (g_conflicts g) -> y <> i -> present mt i -> present mt y -> False.
+Proof. exact clause_group_conflict_member. Qed.
+Print Assumptions C03_clause_group_conflict_member.
+
+Theorem C03_clause_group_conflicts_with : forall c mt, Relations c mt -> forall x g y b,
+  group_of c x g -> In y (g_conflicts g) -> arg_of c y b -> present mt x -> present mt y -> False.
+Proof. exact clause_group_conflicts_with. Qed.
+Print Assumptions C03_clause_group_conflicts_with.
+
+Theorem C03_clause_conflicts_with_group : forall c mt, Relations c mt -> forall i a x g,
+  arg_of c i a -> In x (a_blacklist a) -> group_of c x g -> present mt i -> present mt x -> False.
+Proof. exact clause_conflicts_with_group. Qed.
+Print Assumptions C03_clause_conflicts_with_group.
+
+(** (R2) an exclusive argument is present alone *)
+Theorem C03_clause_exclusive : forall c mt, Relations c mt -> forall i a j b,
+  arg_of c i a -> a_exclusive a = true -> present mt i -> arg_of c j b -> present mt j -> j = i.
+Proof. exact clause_exclusive. Qed.
+Print Assumptions C03_clause_exclusive.
+
+(** (R3) required: statically; through a fired [requires]/[requires_if] (arg or group target);
+    through chains of [requires] (transitive closure, by induction on the chain); where no
+    exemption applies the whole closure is present; a fired [requires_if] followed by a chain;
+    required groups, what they require, what a present group requires.
+    [arg_satisfied]: present, or an exclusive arg is present, or [excused] (something present
+    conflicts with it -- the documented exemptions, exactly as [is_missing_required_ok] grants
+    them); [group_satisfied]: the group's entry or a member is present (no exemption). *)
+Theorem C03_clause_required_static : forall c mt, Relations c mt -> negates_reqs c mt = false ->
+  forall i a, arg_of c i a -> a_required a = true -> arg_satisfied c mt i.
+Proof. exact clause_required_static. Qed.
+Print Assumptions C03_clause_required_static.
+
+Theorem C03_clause_requires_arg : forall c mt, Relations c mt -> negates_reqs c mt = false ->
+  forall i a m p y b,
+  arg_of c i a -> fm_get i (mt_args mt) = Some m -> In (p, y) (a_requires a) -> Relations.holds p m ->
+  arg_of c y b -> arg_satisfied c mt y.
+Proof. exact clause_requires_arg. Qed.
+Print Assumptions C03_clause_requires_arg.
+
+Theorem C03_clause_requires_group : forall c mt, Relations c mt -> negates_reqs c mt = false ->
+  forall i a m p y g,
+  arg_of c i a -> fm_get i (mt_args mt) = Some m -> In (p, y) (a_requires a) -> Relations.holds p m ->
+  group_of c y g -> group_satisfied mt y g.
+Proof. exact clause_requires_group. Qed.
+Print Assumptions C03_clause_requires_group.
+
+Theorem C03_clause_requires_chain : forall c mt, Relations c mt -> negates_reqs c mt = false ->
+  forall root y b,
+  present mt root -> clos_trans_1n id (requires_edge c) root y -> arg_of c y b -> arg_satisfied c mt y.
+Proof. exact clause_requires_chain. Qed.
+Print Assumptions C03_clause_requires_chain.
+
+Theorem C03_clause_requires_chain_present : forall c mt, Relations c mt -> negates_reqs c mt = false ->
+  forall root y b,
+  ~ exclusive_present c (present mt) -> ~ excused c (present mt) y ->
+  present mt root -> clos_trans_1n id (requires_edge c) root y -> arg_of c y b -> present mt y.
+Proof. exact clause_requires_chain_present. Qed.
+Print Assumptions C03_clause_requires_chain_present.
+
+Theorem C03_clause_requires_if_then_chain : forall c mt, Relations c mt -> negates_reqs c mt = false ->
+  forall i a m p x y b,
+  arg_of c i a -> fm_get i (mt_args mt) = Some m -> In (p, x) (a_requires a) -> Relations.holds p m ->
+  clos_trans_1n id (requires_edge c) x y -> arg_of c y b -> arg_satisfied c mt y.
+Proof. exact clause_requires_if_then_chain. Qed.
+Print Assumptions C03_clause_requires_if_then_chain.
+
+Theorem C03_clause_required_group : forall c mt, Relations c mt -> negates_reqs c mt = false ->
+  forall g, In g (c_groups c) -> g_required g = true -> group_of c (g_id g) g -> group_satisfied mt (g_id g) g.
+Proof. exact clause_required_group. Qed.
+Print Assumptions C03_clause_required_group.
+
+Theorem C03_clause_required_group_requires : forall c mt, Relations c mt -> negates_reqs c mt = false ->
+  forall g y b, In g (c_groups c) -> g_required g = true -> In y (g_requires g) -> arg_of c y b -> arg_satisfied c mt y.
+Proof. exact clause_required_group_requires. Qed.
+Print Assumptions C03_clause_required_group_requires.
+
+Theorem C03_clause_present_group_requires : forall c mt, Relations c mt -> negates_reqs c mt = false ->
+  forall x g y b, group_of c x g -> present mt x -> In y (g_requires g) -> arg_of c y b -> arg_satisfied c mt y.
+Proof. exact clause_present_group_requires. Qed.
+Print Assumptions C03_clause_present_group_requires.
+
+(** the conditional rules: [required_if_eq], [required_if_eq_all], [required_unless_present(_any)],
+    [required_unless_present_all], both lists; the only exemption the code grants is a present
+    exclusive argument (no conflict exemption: see [C03_exemptions_granted]) *)
+Theorem C03_clause_required_if_eq : forall c mt, Relations c mt -> negates_reqs c mt = false ->
+  forall a o v, In a (c_args c) -> In (o, v) (a_r_ifs a) -> has_value mt o v ->
+  present mt (a_id a) \/ exclusive_present c (present mt).
+Proof. exact clause_required_if_eq. Qed.
+Print Assumptions C03_clause_required_if_eq.
+
+Theorem C03_clause_required_if_eq_all : forall c mt, Relations c mt -> negates_reqs c mt = false ->
+  forall a, In a (c_args c) -> a_r_ifs_all a <> [] -> (forall o v, In (o, v) (a_r_ifs_all a) -> has_value mt o v) ->
+  present mt (a_id a) \/ exclusive_present c (present mt).
+Proof. exact clause_required_if_eq_all. Qed.
+Print Assumptions C03_clause_required_if_eq_all.
+
+Theorem C03_clause_required_unless_present_any : forall c mt, Relations c mt -> negates_reqs c mt = false ->
+  forall a, In a (c_args c) -> a_r_unless a <> [] -> a_r_unless_all a = [] ->
+  (forall o, In o (a_r_unless a) -> ~ present mt o) -> present mt (a_id a) \/ exclusive_present c (present mt).
+Proof. exact clause_required_unless_present_any. Qed.
+Print Assumptions C03_clause_required_unless_present_any.
+
+Theorem C03_clause_required_unless_present_all : forall c mt, Relations c mt -> negates_reqs c mt = false ->
+  forall a o, In a (c_args c) -> a_r_unless a = [] -> In o (a_r_unless_all a) -> ~ present mt o ->
+  present mt (a_id a) \/ exclusive_present c (present mt).
+Proof. exact clause_required_unless_present_all. Qed.
+Print Assumptions C03_clause_required_unless_present_all.
+
+Theorem C03_clause_required_unless_both : forall c mt, Relations c mt -> negates_reqs c mt = false ->
+  forall a o, In a (c_args c) -> (forall o', In o' (a_r_unless a) -> ~ present mt o') ->
+  In o (a_r_unless_all a) -> ~ present mt o -> present mt (a_id a) \/ exclusive_present c (present mt).
+Proof. exact clause_required_unless_both. Qed.
+Print Assumptions C03_clause_required_unless_both.
+
+(** (R4) defaults never count as presence, for every rule at once: [Relations] is a function of
+    the explicit entries ([explicit_view]: an entry whose source is [DefaultValue] reads as no
+    entry) and of "a subcommand was used" *)
+Theorem C03_defaults_inert : forall c mt mt',
+  (forall i, explicit_view mt i = explicit_view mt' i) -> is_some (mt_sub mt) = is_some (mt_sub mt') ->
+  Relations c mt -> Relations c mt'.
+Proof. exact Relations_defaults_inert. Qed.
+Print Assumptions C03_defaults_inert.
+
+Theorem C03_default_invisible : forall mt i m,
+  fm_get i (mt_args mt) = Some m -> m_source m = Some SDefault ->
+  explicit_view mt i = None /\ ~ present mt i /\ forall p, ~ Relations.holds p m.
+Proof. exact default_entry_invisible. Qed.
+Print Assumptions C03_default_invisible.
+
+(** witnesses: the hypotheses of the clause theorems are satisfiable (a chain of [requires], all
+    present; rejected without its end); each exemption is really granted (conflict, exclusive,
+    subcommand-negates-requirements) and a conditional rule has NO conflict exemption; a default
+    entry exists next to the explicit ones and is invisible *)
+Theorem C03_clauses_nonvacuous :
+  valid e_cmd = true
+  /\ ok_with e_cmd [dd [97;97]; dd [98;98]; dd [99;99]; dd [114;114]] [i_a; i_b; i_c; i_r] [i_k; i_e; i_x]
+  /\ clos_trans_1n id (requires_edge (build_self e_cmd)) i_a i_c
+  /\ rejected_with e_cmd [dd [97;97]; dd [98;98]; dd [114;114]] EMissingRequiredArgument.
+Proof. exact clauses_nonvacuous. Qed.
+Print Assumptions C03_clauses_nonvacuous.
+
+Theorem C03_exemptions_granted :
+  ok_with e_cmd [dd [107;107]; dd [97;97]; dd [98;98]; dd [99;99]] [i_k; i_a] [i_r]
+  /\ ok_with e_cmd [dd [101;101]] [i_e] [i_r; i_x]
+  /\ valid e_sub_cmd = true /\ ok_with e_sub_cmd [[115]] [] [i_r]
+  /\ rejected_with e_sub_cmd [] EMissingRequiredArgument
+  /\ rejected_with e_cmd [dd [107;107]] EMissingRequiredArgument.
+Proof. exact exemptions_granted. Qed.
+Print Assumptions C03_exemptions_granted.
+
+Theorem C03_defaults_nonvacuous :
+  exists st m, run_level e_cmd [dd [101;101]] = ROk st
+    /\ fm_get i_c (mt_args (mt st)) = Some m /\ m_source m = Some SDefault
+    /\ explicit_view (mt st) i_c = None /\ explicit_view (mt st) i_e <> None.
+Proof. exact defaults_nonvacuous. Qed.
+Print Assumptions C03_defaults_nonvacuous.
+
+(** ---------------------------------------------------------------------------------------
+    THE CONVERSE DIRECTION for two rule families (round 2; ParseProofs/RelationsComplete.v):
+    a matcher that breaks no rule is not rejected by the validator. *)
+
+(** conflicts, ALL relation graphs: if the conflict clauses (R1), (R2) hold then
+    [validate_conflicts] accepts ... *)
+Theorem C03_conflicts_complete : forall c, rel_wf c = true -> forall mt potential,
+  fm_wf mt -> conflicts_with_args c mt = Some potential -> R1 c mt -> R2 c mt ->
+  validate_conflicts c mt potential = VOk.
+Proof. exact validate_conflicts_complete. Qed.
+Print Assumptions C03_conflicts_complete.
+
+(** ... and [validate] never answers ArgumentConflict *)
+Theorem C03_no_false_conflict : forall c, rel_wf c = true -> forall mt,
+  fm_wf mt -> keys_ok c (mt_args mt) -> R1 c mt -> R2 c mt ->
+  forall a, validate c mt <> VErr EArgumentConflict a.
+Proof. exact validate_no_conflict_error. Qed.
+Print Assumptions C03_no_false_conflict.
+
+(** statically required arguments, class [static_only] (no [requires], no conditional rule, no
+    required group; conflicts / overrides / groups / exclusive arbitrary): if every statically
+    required arg is present or excused exactly as the specification says, nothing is missing *)
+Theorem C03_required_static_complete : forall c, rel_wf c = true -> static_only c = true ->
+  assert_app c = true -> forall mt potential,
+  conflicts_with_args c mt = Some potential ->
+  (forall p, In p (positionals c) -> a_index p <> None) ->
+  R3s c mt -> missing_required c mt potential = Some [].
+Proof. exact missing_required_complete_static. Qed.
+Print Assumptions C03_required_static_complete.
+
+(** on that class the validator IS the specification (the two checks that are not relations --
+    help-on-empty-argv and subcommand-required -- set aside) *)
+Theorem C03_validate_iff_static : forall c mt,
+  assert_app c = true -> static_only c = true -> fm_wf mt -> keys_ok c (mt_args mt) ->
+  (forall p, In p (positionals c) -> a_index p <> None) ->
+  negb (is_some (mt_sub mt)) && is_set s_arg_required_else_help c && is_nil (explicit_entries mt) = false ->
+  negb (is_some (mt_sub mt)) && is_set s_sub_required c = false ->
+  (validate c mt = VOk <-> Relations c mt).
+Proof. exact validate_iff_static. Qed.
+Print Assumptions C03_validate_iff_static.
+
+Theorem C03_static_nonvacuous :
+  valid s_cmd = true /\ static_only (build_self s_cmd) = true /\ pos_indexed_b (build_self s_cmd) = true
+  /\ (exists st, run_level s_cmd [dd [107;107]; dd [99;99]] = ROk st
+                 /\ fm_wf_b (mt st) = true /\ keys_ok_b (build_self s_cmd) (mt st) = true
+                 /\ validate (build_self s_cmd) (mt st) = VOk)
+  /\ (exists e st, run_level s_cmd [dd [97;97]; dd [98;98]; dd [114;114]] = RErr e st
+                 /\ fm_wf_b (mt st) = true /\ keys_ok_b (build_self s_cmd) (mt st) = true
+                 /\ validate (build_self s_cmd) (mt st) = VErr EArgumentConflict i_a)
+  /\ (exists e st, run_level s_cmd [dd [97;97]] = RErr e st
+                 /\ validate (build_self s_cmd) (mt st) = VErr EMissingRequiredArgument i_r).
+Proof. exact static_nonvacuous. Qed.
+Print Assumptions C03_static_nonvacuous.
+
+(** ---------------------------------------------------------------------------------------
+    THE TWO FINDINGS AS FAMILIES OF DEFINITIONS (round 2; ParseProofs/RelationsFamilies.v).
+    [f1_family c]: some [overrides_with] list names a group id.
+    [f2_family c]: some arg overrides ANOTHER arg and one of the two belongs to a group.
+    [group_safe c] = neither.  Both findings go through one function, [Parser::remove_overrides].
+
+    FULL STATEMENT (kept visible; NOT proved -- carried by the differential run and the oracle):
+      forall c0 toks st, plain c0 = true -> valid c0 = true ->
+        (every level of the built tree is [group_safe]) -> run_level c0 toks = ROk st ->
+        coherent_b (build_self c0) (mt st) = true            (hence [RelationsM], by
+                                                              [C03_validate_sound_members])
+    Proved here (_partial = the step that both findings go through): which entries
+    [remove_overrides] can remove at all (every command); outside the two families it removes
+    neither a group's own entry nor the entry of another arg that belongs to a group, so it
+    preserves the coherence of every group not containing the occurring arg (whose own entry
+    and groups are rebuilt by [start_custom_arg] right after); and the whole step [start_custom_arg]
+    with an explicit source re-establishes the coherence of EVERY group ([C03_start_custom_arg_
+    coherent_partial]).  Missing for the full statement: the traversal (coherence threaded through
+    [react]'s own-entry removal, the default-source calls and the token loop). *)
+Theorem C03_remove_overrides_frame : forall c a m k,
+  ~ In k (a_overrides a) ->
+  (forall ov, find_arg c k = Some ov -> ~ In (a_id a) (a_overrides ov)) ->
+  fm_get k (mt_args (remove_overrides c a m)) = fm_get k (mt_args m).
+Proof. exact remove_overrides_frame. Qed.
+Print Assumptions C03_remove_overrides_frame.
+
+Theorem C03_group_safe_keeps_group_partial : forall c, group_safe c = true -> forall a m x g,
+  In a (c_args c) -> group_of c x g ->
+  fm_get x (mt_args (remove_overrides c a m)) = fm_get x (mt_args m).
+Proof. exact remove_overrides_keeps_group. Qed.
+Print Assumptions C03_group_safe_keeps_group_partial.
+
+Theorem C03_group_safe_keeps_member_partial : forall c, group_safe c = true -> forall a m k,
+  find_arg c (a_id a) = Some a -> k <> a_id a -> is_some (find_arg c k) = true -> in_some_group c k = true ->
+  fm_get k (mt_args (remove_overrides c a m)) = fm_get k (mt_args m).
+Proof. exact remove_overrides_keeps_member. Qed.
+Print Assumptions C03_group_safe_keeps_member_partial.
+
+Theorem C03_group_safe_coherent_partial : forall c, group_safe c = true -> forall a m g,
+  rel_wf c = true -> find_arg c (a_id a) = Some a -> In g (c_groups c) -> find_arg c (g_id g) = None ->
+  ~ In (a_id a) (g_args g) ->
+  (present m (g_id g) <-> present_members m g) ->
+  (present (remove_overrides c a m) (g_id g) <-> present_members (remove_overrides c a m) g).
+Proof. exact remove_overrides_coherent. Qed.
+Print Assumptions C03_group_safe_coherent_partial.
+
+(** the refutation witnesses stand: each lies in exactly its own family, and its incoherence is
+    produced by that single call of [remove_overrides] on a coherent matcher; a definition with an
+    override that fires AND a group, outside both families, stays coherent *)
+Theorem C03_families_witnesses :
+  f1_family (build_self f1_cmd) = true /\ f2_family (build_self f1_cmd) = false
+  /\ (let m := entry [(i_b, flag_entry SCmdLine); (i_g, group_entry i_b)] in
+      coherent_b (build_self f1_cmd) m = true
+      /\ coherent_b (build_self f1_cmd) (remove_overrides (build_self f1_cmd) (built_arg f1_cmd i_a) m) = false)
+  /\ f2_family (build_self f2_cmd) = true /\ f1_family (build_self f2_cmd) = false
+  /\ (let m := entry [(i_a, flag_entry SCmdLine); (i_g, group_entry i_a)] in
+      coherent_b (build_self f2_cmd) m = true
+      /\ coherent_b (build_self f2_cmd) (remove_overrides (build_self f2_cmd) (built_arg f2_cmd i_c) m) = false)
+  /\ valid gs_cmd = true /\ group_safe (build_self gs_cmd) = true
+  /\ (exists st, run_level gs_cmd [dd [97;97]; dd [100;100]; dd [99;99]] = ROk st
+                 /\ coherent_b (build_self gs_cmd) (mt st) = true
+                 /\ check_explicit (mt st) i_g PIsPresent = true
+                 /\ check_explicit (mt st) i_d PIsPresent = false
+                 /\ check_explicit (mt st) i_c PIsPresent = true).
+Proof. exact families_witnesses. Qed.
+Print Assumptions C03_families_witnesses.
+
+(** the group-handling step: closed form of the explicit ids after [start_custom_arg] with an
+    explicit source (every command), and coherence of every group afterwards outside the families *)
+Theorem C03_start_custom_arg_explicit : forall c a s m m', src_explicit s = true ->
+  start_custom_arg c a s m = ROk m' ->
+  forall i, ex m' i =
+    if mem_id i (groups_for_arg c (a_id a)) then true
+    else if beq i (a_id a) then true
+    else ex (match s with SCmdLine => remove_overrides c a m | _ => m end) i.
+Proof. exact start_custom_arg_explicit. Qed.
+Print Assumptions C03_start_custom_arg_explicit.
+
+Theorem C03_start_custom_arg_coherent_partial : forall c a s m m',
+  rel_wf c = true -> group_safe c = true -> find_arg c (a_id a) = Some a ->
+  (forall g, In g (c_groups c) -> find_arg c (g_id g) = None) ->
+  src_explicit s = true ->
+  (forall g, In g (c_groups c) -> ~ In (a_id a) (g_args g) -> cohg m g) ->
+  start_custom_arg c a s m = ROk m' ->
+  forall g, In g (c_groups c) -> cohg m' g.
+Proof. exact start_custom_arg_coherent. Qed.
+Print Assumptions C03_start_custom_arg_coherent_partial.
+
+Theorem C03_start_custom_arg_coherent_nonvacuous :
+  let c := build_self gs_cmd in
+  let a := built_arg gs_cmd i_a in
+  rel_wf c = true /\ group_safe c = true /\ find_arg c (a_id a) = Some a
+  /\ forallb (fun g => negb (is_some (find_arg c (g_id g)))) (c_groups c) = true
+  /\ exists m', start_custom_arg c a SCmdLine (entry [(i_d, flag_entry SCmdLine)]) = ROk m'
+                /\ coherent_b c m' = true /\ ex m' i_g = true /\ ex m' i_a = true /\ ex m' i_d = true.
+Proof. exact start_custom_arg_coherent_nonvacuous. Qed.
+Print Assumptions C03_start_custom_arg_coherent_nonvacuous.
